@@ -237,17 +237,16 @@ def run(chk):
             mr.append(s_)
     B = {"L_t": tname, "L_i": mr[0].target.id} if len(mr) == 1 else None
     okb = False
+    D16 = pat.defs_of(f.node)
+    first = []
     if B:
-        for x in mr[0].body:
-            r_ = pat.match("L_a = smallprimes[L_i]", x, B)
-            if r_ is not None:
-                B, okb = r_, True
+        first = [pat.match("L_y = pow(smallprimes[L_i], L_r, %s)" % n, x, B, defs=D16) for x in mr[0].body]
+        first = [x for x in first if x is not None]
+        okb = len(first) == 1
     chk.ob("R16.3", "round i uses base smallprimes[i]", okb, loc=f.qname, key="C16|R16.3|bases", detail="Miller-Rabin bases are not smallprimes[0..t-1]")
     # False only on a witness
     okw = okd = False
     if okb:
-        first = [pat.match("L_y = pow(L_a, L_r, %s)" % n, x, B) for x in mr[0].body]
-        first = [x for x in first if x is not None]
         if len(first) == 1:
             B = first[0]
             falses = [x for x in ast.walk(mr[0]) if isinstance(x, ast.Return)]
